@@ -79,7 +79,16 @@ func getPathsByDirectory(dirName string, index *store.Index, tree *object.Tree) 
 			isAdded[string(entry.Path)] = true
 		}
 	}
-	if tree != nil {
+	if tree != nil && dirName == "." {
+		// the root of the working tree: every path of the tree
+		for _, child := range tree.Children {
+			for _, path := range child.GetPaths() {
+				if !isAdded[path] {
+					paths = append(paths, path)
+				}
+			}
+		}
+	} else if tree != nil {
 		if node, isNodeFound := object.GetNode(tree.Children, dirName); isNodeFound && len(node.Children) > 0 {
 			parentDir := filepath.Dir(dirName)
 			for _, path := range node.GetPaths() {
@@ -151,6 +160,7 @@ var restoreCmd = &cobra.Command{
 		if len(args) == 0 {
 			return errors.New("fatal: you must specify path(s) to restore")
 		}
+		args = toWorkTreePaths(args)
 
 		// get staged option
 		isStaged, err := cmd.Flags().GetBool("staged")
